@@ -802,7 +802,8 @@ impl<E: Effect> Executor<E> {
     ///
     /// `answered` are the processes the answer reports on. An answer can be stale — left over from
     /// an earlier select of the same process that has already completed through a same-worker
-    /// notification — so it only counts if it covers exactly the current select's await targets.
+    /// notification — so it only counts if it covers all of the current select's await targets (it
+    /// may cover more: the environment folds a late completion from an earlier await into it).
     pub fn initial_await_answered(&mut self, id: ProcessId, answered: &[ProcessId]) -> bool {
         if !self.awaiting_initial.contains(&id) {
             return false;
@@ -822,7 +823,7 @@ impl<E: Effect> Executor<E> {
             })
             .unwrap_or_default();
         let answered: HashSet<ProcessId> = answered.iter().copied().collect();
-        if targets == answered {
+        if targets.is_subset(&answered) {
             self.awaiting_initial.remove(&id);
             true
         } else {
